@@ -193,7 +193,7 @@ class C03(Check):
 
         def run_member(cfg, plan):
             # each member is a scenario run of its own: in a fresh fork, so that nothing a run leaves at module or class level reaches the next
-            truth, batches, aborted, bulk, direct, counters = fork_call(run_member_here, (cfg, plan), self.per_run_timeout_s)
+            truth, batches, aborted, bulk, direct, counters = fork_call(run_member_here, (cfg, plan), self.per_run_timeout_s * 4)      # the run as a whole is under the pool's time limit
             for kk, vv in counters.items():
                 res["counters"][kk] = res["counters"].get(kk, 0) + vv
             if direct is not None:
